@@ -276,11 +276,6 @@ Proof.
 Qed.
 
 (* ------------------------------------------------------------------ urldecode / rawurldecode: when the fallback is taken *)
-Inductive pct_escaped : bytes -> Prop :=     (* every '%' is followed by two hex digits *)
-| pe_nil : pct_escaped []
-| pe_pct : forall h l r a b, unhex h = Some a -> unhex l = Some b -> pct_escaped r -> pct_escaped (37 :: h :: l :: r)
-| pe_other : forall c r, c <> 37 -> pct_escaped r -> pct_escaped (c :: r).
-
 Lemma unescape_accepts_iff_l : forall plus s, (exists t, unescape plus s = Some t) <-> pct_escaped s.
 Proof.
   intros plus s. split.
